@@ -353,6 +353,8 @@ class _Gen(object):
         span = 8.0 if P0 <= 64 else (3.0 if P0 <= 120 else 1.0)
         if name == 'ode_lin':
             span = min(span, 4.0)
+        if name == 'ode_xpow':
+            span = min(span, 2.0)       # x^31 over eight units with a degree-15 polynomial per segment: minutes per run
         x0 = _dy(r.randint(-24, 24), 3)
         if odeproblems.dim(name) == 3:
             # one huge component (k * 2^60) next to two of size 1
@@ -374,6 +376,8 @@ class _Gen(object):
         if r.random() < 0.25:
             # a user degree below the default loses accuracy (known finding C34-K01); most runs stay at or above it
             degree = r.randint(max(10, dflt - 12), dflt - 1) if r.random() < 0.25 else r.randint(dflt, dflt + 25)
+            if name == 'ode_xpow' and degree < dflt:
+                degree = dflt + (degree % 7)      # (x^31 with an 11-term Taylor polynomial means thousands of tiny segments: minutes per run)
             kw['degree'] = I(degree)
         st = {'kind': 'call', 'actor': 'mp', 'op': 'f:odefun', 'args': [catalogue.CB(name, a, b), x0, y0], 'id': self.new_id(),
               'c34': {'create': True, 'problem': name, 'p': [a, b], 'x0': x0, 'y0': y0, 'prec': P0, 'tol_log2': tol_log2, 'order': self.order,
